@@ -450,7 +450,30 @@ def h_pianoroll(c):
           'decoded event is a sorted tuple of in-range pitches')
 
 
+def h_pianoroll_wide(c):
+  """The default 88-key encoder: labels are sums of 2**pitch, far beyond the
+  53-bit mantissa of a double.  K active pitches anywhere on the keyboard (the
+  solver closes the choice), plus the all-keys label."""
+  ped = c.mod('pianoroll_encoder_decoder')
+  W, Kp = c.params.get('W', 88), c.params['K']
+  enc = ped.PianorollEncoderDecoder(W)
+  ps = [c.int('p%d' % i, 0, W - 1) for i in range(Kp)]
+  for a, b in zip(ps, ps[1:]):
+    c.assume(a < b)
+  ev = tuple(c.concretize(p_) for p_ in ps)
+  label = enc.events_to_label([ev], 0)
+  c.check(0 <= label < enc.num_classes, 'label in [0, num_classes)')
+  res, err = c.raises(enc.class_index_to_event, label, [])
+  c.check(err is None and res == ev, 'decode(label) == event')
+  full = 2**W - 1
+  res, err = c.raises(enc.class_index_to_event, full, [])
+  c.check(err is None and res == tuple(range(W)),
+          'the all-keys label decodes to every pitch')
+  c.cover('pitches more than 53 keys apart', ev[-1] - ev[0] > 53)
+
+
 HARNESSES = {
+    'h_pianoroll_wide': h_pianoroll_wide,
     'h_lookback': h_lookback,
     'h_lookback_input': h_lookback_input,
     'h_onehot': h_onehot,
@@ -495,6 +518,8 @@ def jobs(tier):
   add('h_modulo', nv=0, ms=8, etype=3)
   add('h_pianoroll', W=3)
   add('h_pianoroll', W=4)
+  add('h_pianoroll_wide', K=1)
+  add('h_pianoroll_wide', K=2, budget=600)
   if deep:
     for L in (5, 6):
       for p in range(L):
